@@ -5,6 +5,7 @@ package achecks
 import (
 	"encoding/json"
 	"fmt"
+	"strings"
 )
 
 type M = map[string]interface{}
@@ -55,6 +56,9 @@ type ExtVocab struct {
 	// Extra names further shipped vocabulary files (under astool/) the extension references besides
 	// ActivityStreams; their types are written "forge:<Name>".
 	Extra []string
+	// AltPrefixes spells every namespace prefix differently from the shipped vocabulary files ("activity:"
+	// for "as:", "r:" for "rdf:", "x:" for "xsd:", ...): prefixes are local to a file.
+	AltPrefixes bool
 	Types []ExtType
 	Props []ExtProp
 }
@@ -109,6 +113,15 @@ func (v ExtVocab) JSON() []byte {
 	}
 	doc := M{"@context": ctx, "id": extURI, "type": "owl:Ontology", "name": "VerifExt", "members": members}
 	b, _ := json.MarshalIndent(doc, "", " ")
+	if v.AltPrefixes {
+		// rename every prefix consistently (declarations and uses); the URIs stay
+		t := string(b)
+		for _, pr := range [][2]string{{"as", "activity"}, {"rdfs", "rs"}, {"rdf", "r"}, {"xsd", "x"}, {"owl", "o"}, {"schema", "sc"}, {"rfc", "rf"}} {
+			t = strings.ReplaceAll(t, "\""+pr[0]+":", "\""+pr[1]+":")
+			t = strings.ReplaceAll(t, "\""+pr[0]+"\": ", "\""+pr[1]+"\": ")
+		}
+		b = []byte(t)
+	}
 	return b
 }
 
@@ -256,6 +269,20 @@ func ThreeVocabs() ExtVocab {
 		{Name: "vt2", Domain: []string{"Trouble", "forge:Repository"}, Range: []string{"forge:Commit", "as:Note"}},
 		{Name: "vt3", Domain: []string{"as:Object"}, Range: []string{"Trouble", "xsd:anyURI"}, Functional: true},
 		{Name: "vt4", Domain: []string{"forge:Ticket", "Alpha"}, Range: []string{"rdf:langString", "xsd:string"}, Without: []string{"Calamity"}},
+	}}
+}
+
+// AltPrefixVocab: a small extension whose file binds every namespace to another prefix than the
+// shipped vocabularies do (a property ranging over "r:langString", types below "activity:Object").
+func AltPrefixVocab() ExtVocab {
+	return ExtVocab{Label: "alternative-prefixes", AltPrefixes: true, Types: []ExtType{
+		{"Alpha", []string{"as:Object"}, nil, false},
+		{"Beta", []string{"Alpha"}, []string{"as:Link"}, false},
+	}, Props: []ExtProp{
+		{Name: "vp1", Domain: []string{"Alpha"}, Range: []string{"rdf:langString", "xsd:string"}},
+		{Name: "vp2", Domain: []string{"as:Object"}, Range: []string{"rdf:langString", "xsd:string"}, Functional: true},
+		{Name: "vp3", Domain: []string{"Beta", "as:Link"}, Range: []string{"xsd:dateTime", "as:Object", "xsd:anyURI"}, Without: []string{"Beta"}},
+		{Name: "vp4", Domain: []string{"Alpha"}, Range: []string{"xsd:nonNegativeInteger", "xsd:duration", "xsd:dateTime"}, Functional: true}, // (no xsd:boolean next to a numeric kind: 0 and 1 are in both lexical spaces)
 	}}
 }
 
